@@ -28,10 +28,11 @@ Section SparseModel.
     scatter (map (glob_singular St Sr) (sparse_local Lsp (sp_ns St) (sp_ns Sr) (sparse_elements nel St Sr))).
 
   (* mat @ domain.dof_transformation ; dual_to_range.dof_transformation.T @ mat  (None: not required) *)
-  Definition sparse_op (nel : nat) Lsp (St Sr : space A) (gdc_t gdc_r : nat) (Xt Xr : option mat) : mat :=
-    let M1 := match Xr with None => sparse_core nel Lsp St Sr
-                          | Some X => mmul (seq 0 gdc_r) (sparse_core nel Lsp St Sr) X end in
+  Definition dof_transform (gdc_t gdc_r : nat) (Xt Xr : option mat) (M : mat) : mat :=
+    let M1 := match Xr with None => M | Some X => mmul (seq 0 gdc_r) M X end in
     match Xt with None => M1 | Some X => mmul (seq 0 gdc_t) (tr X) M1 end.
+  Definition sparse_op (nel : nat) Lsp (St Sr : space A) (gdc_t gdc_r : nat) (Xt Xr : option mat) : mat :=
+    dof_transform gdc_t gdc_r Xt Xr (sparse_core nel Lsp St Sr).
 
   (* ---- basis evaluators: value of local function i of element e at reference point p, component d ----- *)
   Definition basisfn := nat -> nat -> pt2 A -> nat -> A.
